@@ -997,9 +997,13 @@ func (rl *Shell) viYankWholeLine() {
 	rl.selection.Visual(true)
 
 	bpos, epos := rl.selection.Pos()
+	if bpos == -1 || epos == -1 {
+		rl.selection.Reset()
+		return
+	}
 
 	// If selection has a new line, remove it.
-	if (*rl.line)[epos-1] == '\n' {
+	if epos > bpos && (*rl.line)[epos-1] == '\n' {
 		epos--
 	}
 
